@@ -248,3 +248,79 @@ Section Reachable.
     eapply lookup_x_sound; eauto.
   Qed.
 End Reachable.
+
+(** ---- "an error if and only if no certificate is available", in model terms, any policy ---- *)
+Definition servable_load (cap : nat) (s : state) (e : envx) (nm : name) : bool :=
+  almost_full cap (length (cache s)) &&
+  match load_from_storage (x_storage e) (x_broken e) nm with Some x => sd_servable x | None => false end.
+
+Theorem lookup_x_error_iff lower is_space sel conn s cap cfg sni ip e :
+  fst (lookup_x lower is_space sel conn s cap cfg sni ip e) = RErr <->
+  (forall c v, from_cache_x lower is_space sel conn s cfg sni ip <> Some (c, true, v)) /\
+  match hello_name lower is_space cfg ip (x_idna e) with
+  | None => True                                                   (* the IDNA conversion failed *)
+  | Some nm => subject_qualifies is_space nm = false \/             (* the name does not qualify *)
+               (from_cache_x lower is_space sel conn s cfg sni ip = None /\   (* no default, no fallback *)
+                servable_load cap s e nm = false)                  (* and nothing to load *)
+  end.
+Proof.
+  unfold lookup_x, servable_load.
+  destruct (from_cache_x lower is_space sel conn s cfg sni ip) as [[[c0 b] v]|] eqn:Ef.
+  - destruct b.
+    + cbn [fst]. split; [discriminate|]. intros [H _]. exfalso. eapply H; reflexivity.
+    + destruct (hello_name lower is_space cfg ip (x_idna e)) as [nm|]; cbn [fst].
+      2:{ split; [intros _; split; [intros c' v'; congruence | exact I] | reflexivity]. }
+      destruct (subject_qualifies is_space nm); cbn [negb fst].
+      2:{ split; [intros _; split; [intros c' v'; congruence | left; reflexivity] | reflexivity]. }
+      split.
+      * intros H. exfalso.
+        destruct (almost_full cap (length (cache s))); [|discriminate].
+        destruct (load_from_storage (x_storage e) (x_broken e) nm) as [x|]; [|discriminate].
+        cbv zeta in H. destruct (sd_servable x); discriminate.
+      * intros [_ [H|[H _]]]; discriminate.
+  - destruct (hello_name lower is_space cfg ip (x_idna e)) as [nm|]; cbn [fst].
+    2:{ split; [intros _; split; [intros c' v'; congruence | exact I] | reflexivity]. }
+    destruct (subject_qualifies is_space nm); cbn [negb fst].
+    2:{ split; [intros _; split; [intros c' v'; congruence | left; reflexivity] | reflexivity]. }
+    destruct (almost_full cap (length (cache s))); cbn [andb].
+    + destruct (load_from_storage (x_storage e) (x_broken e) nm) as [x|].
+      * cbv zeta. destruct (sd_servable x); cbn [fst defaulted_result].
+        -- split; [discriminate|]. intros [_ [H|[_ H]]]; discriminate.
+        -- split; [intros _; split; [intros c' v'; congruence | right; split; reflexivity] | reflexivity].
+      * cbn [fst defaulted_result]. split; [intros _; split; [intros c' v'; congruence | right; split; reflexivity] | reflexivity].
+    + cbn [fst defaulted_result]. split; [intros _; split; [intros c' v'; congruence | right; split; reflexivity] | reflexivity].
+Qed.
+
+(** a stored certificate that is due for renewal but still valid is served, and is not in the cache
+    afterwards (with on-demand TLS off nobody may renew it: the background renewal removes it) *)
+Theorem due_certificate_served_then_gone lower is_space sel conn s cap cfg sni ip e x c s' :
+  lookup_x lower is_space sel conn s cap cfg sni ip e = (ROk c, s') ->
+  (forall c' v, from_cache_x lower is_space sel conn s cfg sni ip <> Some (c', true, v)) ->
+  load_ok lower is_space cap s cfg ip e x -> sd_servable x = true -> sd_fresh x = false ->
+  c = sd_cert x /\ amem (c_hash c) (cache s') = false.
+Proof.
+  intros H Hnm (nm & Hn & Hq & Ha & Hl) Hsv Hfr. unfold lookup_x in H. rewrite Hn, Hq, Ha, Hl in H. cbv zeta in H.
+  rewrite Hsv, Hfr in H. cbn [negb] in H.
+  destruct (from_cache_x lower is_space sel conn s cfg sni ip) as [[[c0 b] v]|] eqn:Ef.
+  - destruct b; [exfalso; eapply Hnm; reflexivity|]. injection H as <- <-. split; [reflexivity|].
+    cbn [remove_cert cache]. rewrite amem_adelete, str_eqb_refl. reflexivity.
+  - injection H as <- <-. split; [reflexivity|].
+    cbn [remove_cert cache]. rewrite amem_adelete, str_eqb_refl. reflexivity.
+Qed.
+
+(** GetCertificate as a whole leaves the cache alone unless it is almost full *)
+Theorem get_certificate_touches_only_when_almost_full lower is_space sel abort protos conn s cap cfg sni ip e :
+  almost_full cap (length (cache s)) = false ->
+  snd (get_certificate lower is_space sel abort protos conn s cap cfg sni ip e) = s.
+Proof.
+  intros H. unfold get_certificate. destruct abort; [reflexivity|].
+  destruct (acme_tls_alpn sni protos); [reflexivity|]. apply lookup_x_unchanged. exact H.
+Qed.
+
+(** for an ordinary ClientHello made by crypto/tls, GetCertificate with the default policy is
+    [lookup]: every statement about [lookup] is a statement about GetCertificate *)
+Theorem get_certificate_is_lookup lower is_space sup valid protos s cap cfg sni ip e :
+  acme_tls_alpn sni protos = false ->
+  fst (get_certificate lower is_space (select_cert sup valid) false protos true s cap cfg sni ip e) =
+  lookup lower is_space sup valid s cap cfg sni ip (env_of lower is_space cfg ip e).
+Proof. intros H. unfold get_certificate. rewrite H. apply lookup_x_default. Qed.
